@@ -252,16 +252,30 @@ fn delay_case(st: &mut Stream, rng: &mut Rng, wrapper: &str, in_bufs: &[usize], 
 }
 
 // ---------------------------------------------------------------- signal
+/// a source whose `is_exhausted()` report is independent of what it yields: it reports exhaustion from frame
+/// `report_from` on while `next()` keeps yielding the given frames (what `finite.add_amp(infinite)`,
+/// `finite.offset_amp(dc)`, `finite.map(f)` do: "contagious" exhaustion with a non-equilibrium tail)
+struct Reporting<F> { frames: Vec<F>, pos: usize, report_from: usize, eq: F }
+macro_rules! impl_reporting { ($($t:ty),*) => { $(
+impl signal::Signal for Reporting<$t> {
+    type Frame = $t;
+    fn next(&mut self) -> $t { let f = if self.pos < self.frames.len() { self.frames[self.pos] } else { self.eq }; self.pos += 1; f }
+    fn is_exhausted(&self) -> bool { self.pos >= self.report_from }
+} )* } }
+impl_reporting!(f32, [f32; 1], [f32; 2], [f32; 3], [f32; 4]);
 fn signal_case<const CH: usize>(st: &mut Stream, rng: &mut Rng, wrapper: &str, n_out: usize) where [f32; CH]: FrameArr {
     let ncalls = 5;
     let frames: Vec<[f32; CH]> = (0..ncalls * LEN).map(|_| { let mut f = [0f32; CH]; for x in f.iter_mut() { *x = rand_sample(rng); } f }).collect();
     let c = Case { out0: rand_bufs(rng, n_out), srcs: vec![], edges: vec![], data: vec![vec![]; ncalls] };
+    // from which frame on the source reports `is_exhausted()` (never, from the start, at a call boundary, mid-call)
+    let report_from = match rng.below(4) { 0 => usize::MAX, 1 => 0, 2 => LEN * rng.usize_below(ncalls), _ => rng.usize_below(ncalls * LEN) };
+    st.count(if report_from == usize::MAX { "signal_source_never_reports_exhausted" } else { "signal_source_reports_exhausted_with_frames_left" });
     let obs = if CH == 1 {
         let mono: Vec<f32> = frames.iter().map(|f| f[0]).collect();
-        let s: Box<dyn signal::Signal<Frame = f32>> = Box::new(signal::from_iter(mono.into_iter()));
+        let s: Box<dyn signal::Signal<Frame = f32>> = if report_from == usize::MAX { Box::new(signal::from_iter(mono.into_iter())) } else { Box::new(Reporting { frames: mono, pos: 0, report_from, eq: 0.0 }) };
         match wrapper { "boxdynsignal" => run_node(s, &c), _ => run_node(BoxedNode::new(s), &c) }
     } else {
-        sig_run::<CH>(frames.clone(), wrapper, &c)
+        sig_run::<CH>(frames.clone(), wrapper, &c, report_from)
     };
     let op = format!("node signal {} {} {} {} {}", wrapper, CH, frames.iter().flat_map(|f| f.iter()).map(|x| format!("{:08x}", x.to_bits())).collect::<String>(), show_bufs(&c.out0), ncalls);
     let mut out = Vec::new();
@@ -284,16 +298,16 @@ fn signal_case<const CH: usize>(st: &mut Stream, rng: &mut Rng, wrapper: &str, n
     st.case(&op, &out.join(" "), true, ncalls as u64);
 }
 
-trait FrameArr: Sized { fn run(frames: Vec<Self>, wrapper: &str, c: &Case) -> Obs; }
+trait FrameArr: Sized { fn run(frames: Vec<Self>, wrapper: &str, c: &Case, report_from: usize) -> Obs; }
 macro_rules! impl_frame_arr { ($($n:expr),*) => { $(
     impl FrameArr for [f32; $n] {
-        fn run(frames: Vec<Self>, wrapper: &str, c: &Case) -> Obs {
-            let s: Box<dyn signal::Signal<Frame = [f32; $n]>> = Box::new(signal::from_iter(frames.into_iter()));
+        fn run(frames: Vec<Self>, wrapper: &str, c: &Case, report_from: usize) -> Obs {
+            let s: Box<dyn signal::Signal<Frame = [f32; $n]>> = if report_from == usize::MAX { Box::new(signal::from_iter(frames.into_iter())) } else { Box::new(Reporting { frames, pos: 0, report_from, eq: [0.0; $n] }) };
             match wrapper { "boxdynsignal" => run_node(s, c), _ => run_node(BoxedNode::new(s), c) }
         }
     } )* } }
 impl_frame_arr!(1, 2, 3, 4);
-fn sig_run<const CH: usize>(frames: Vec<[f32; CH]>, wrapper: &str, c: &Case) -> Obs where [f32; CH]: FrameArr { <[f32; CH]>::run(frames, wrapper, c) }
+fn sig_run<const CH: usize>(frames: Vec<[f32; CH]>, wrapper: &str, c: &Case, report_from: usize) -> Obs where [f32; CH]: FrameArr { <[f32; CH]>::run(frames, wrapper, c, report_from) }
 
 // ---------------------------------------------------------------- nested graph
 #[derive(Clone)]
